@@ -41,9 +41,14 @@ type ReqPlan struct {
 	// 0 Answer(2001).WriteTo(conn) in the handler, 1 the same to conn.Connection(), 2 Answer(2001).WriteTo(conn)
 	// from a goroutine of its own, 3 Answer(0) + AVPs, WriteTo(conn) in the handler, 4 Answer(2001), Serialize and
 	// conn.Write in the handler (the Write adaptor: the current read stream, which is the request's while the reader
-	// loop is in its handler).
-	Via   int `json:"via,omitempty"`
-	Split int `json:"split,omitempty"` // > 0: arrives in two chunks, the first of Split bytes (if the message is longer)
+	// loop is in its handler), 5 ResetWriterStream() on the Conn (as a diam.MultistreamWriter), then as 4: no writer
+	// stream is set, so the Write adaptor uses the current read stream, 6 SetWriterStream(Pin) on the Conn, then as 4 (the
+	// Write adaptor uses the writer stream that is set: the answer goes to Pin), and the previous value is set again,
+	// 7 ResetWriterStream() and SetWriterStream(Pin) on the Conn, then Answer(2001).WriteTo(conn) - which names the
+	// request's stream whatever the Write adaptor would use - and the previous value is set again.
+	Via   int    `json:"via,omitempty"`
+	Pin   uint16 `json:"pin,omitempty"`   // Via 6 and 7: the writer stream that is set
+	Split int    `json:"split,omitempty"` // > 0: arrives in two chunks, the first of Split bytes (if the message is longer)
 }
 
 // WriterPlan is a goroutine of the application that sends its own requests with WriteToStream.
@@ -112,7 +117,7 @@ func (c *ReplyCase) validate() error {
 			if r.DWR && !c.SM {
 				return fmt.Errorf("a DWR without a state machine")
 			}
-			if r.Via < 0 || r.Via > 4 || r.Split < 0 {
+			if r.Via < 0 || r.Via > 7 || r.Split < 0 {
 				return fmt.Errorf("request %+v", r)
 			}
 		}
@@ -210,6 +215,9 @@ func (c *ReplyCase) describe() string {
 				fmt.Fprintf(&sb, " DWR@s%d", r.Stream)
 			} else {
 				fmt.Fprintf(&sb, " req@s%d/via%d", r.Stream, r.Via)
+				if r.Via >= 6 {
+					fmt.Fprintf(&sb, "(pin s%d)", r.Pin)
+				}
 			}
 		}
 		for _, w := range a.Writers {
@@ -225,14 +233,25 @@ type replyRun struct {
 	c  *ReplyCase
 	mu sync.Mutex
 	// per association, per request: streams reported by MessageStream() at each delivery to the handler
-	seen [][][]uint
-	werr []string
-	wgs  []sync.WaitGroup // per association: replies written by goroutines of their own
+	seen   [][][]uint
+	werr   []string
+	pinErr string
+	wgs    []sync.WaitGroup // per association: replies written by goroutines of their own
 }
 
 func (r *replyRun) fail(format string, args ...interface{}) {
 	r.mu.Lock()
 	r.werr = append(r.werr, fmt.Sprintf(format, args...))
+	r.mu.Unlock()
+}
+
+// pinfail: CurrentWriterStream() did not report the stream that SetWriterStream had just set (in the handler, which is
+// the only place where the writer stream is touched: the reader loop is in it).
+func (r *replyRun) pinfail(ai, i int, cur uint) {
+	r.mu.Lock()
+	if r.pinErr == "" {
+		r.pinErr = fmt.Sprintf("association %d, request %d: after SetWriterStream(%d) on the Conn CurrentWriterStream() reports %d", ai, i, r.c.Assocs[ai].Reqs[i].Pin, cur)
+	}
 	r.mu.Unlock()
 }
 
@@ -259,14 +278,45 @@ func (r *replyRun) handler(conn diam.Conn, m *diam.Message) {
 		}
 		a.NewAVP(tagCode, tagFlags, 0, datatype.OctetString(tag))
 		var err error
+		var mw diam.MultistreamWriter
+		if plan.Via >= 5 {
+			var ok bool
+			if mw, ok = conn.(diam.MultistreamWriter); !ok {
+				r.fail("the Conn of a multi-stream association (%T) is not a diam.MultistreamWriter", conn)
+				return
+			}
+		}
+		// pin sets the writer stream and says what CurrentWriterStream() reports then
+		pin := func() (prev uint) {
+			prev = mw.SetWriterStream(uint(plan.Pin))
+			if cur := mw.CurrentWriterStream(); cur != uint(plan.Pin) {
+				r.pinfail(ai, i, cur)
+			}
+			return prev
+		}
 		switch plan.Via {
 		case 1:
 			_, err = a.WriteTo(conn.Connection())
-		case 4:
+		case 4, 5, 6:
 			var b []byte
 			if b, err = a.Serialize(); err == nil {
-				_, err = conn.Write(b)
+				switch plan.Via {
+				case 5:
+					mw.ResetWriterStream()
+					_, err = conn.Write(b)
+				case 6:
+					prev := pin()
+					_, err = conn.Write(b)
+					mw.SetWriterStream(prev)
+				default:
+					_, err = conn.Write(b)
+				}
 			}
+		case 7:
+			mw.ResetWriterStream()
+			prev := pin()
+			_, err = a.WriteTo(conn)
+			mw.SetWriterStream(prev)
 		default:
 			_, err = a.WriteTo(conn)
 		}
@@ -492,6 +542,9 @@ func runReplies(c ReplyCase) *ev.Failure {
 	}
 	r.mu.Lock()
 	defer r.mu.Unlock()
+	if r.pinErr != "" {
+		return ev.Failf("writer-stream-not-reported", "%s; %s", r.pinErr, c.describe())
+	}
 	if len(r.werr) > 0 {
 		return ev.Failf("reply-write-error", "writing failed while the transport was open: %s; %s", strings.Join(r.werr, " | "), c.describe())
 	}
@@ -560,6 +613,12 @@ func (r *replyRun) verify(ai int, res *assocResult, diag func() string, partial 
 			}
 			if h.Code != c.cmd().Code || string(tag) != string(replyLabel(ai, i)) {
 				return ev.Failf("reply-malformed", "association %d: the answer to request %d has command %d and label %x%s", ai, i, h.Code, tag, diag())
+			}
+			if q.Via == 6 {
+				if w.Stream != q.Pin {
+					return ev.Failf("pinned-write-on-another-stream", "association %d: request %d arrived on stream %d; its handler called SetWriterStream(%d) on the Conn and wrote the answer with conn.Write, the Write adaptor, which wrote it to stream %d%s", ai, i, q.Stream, q.Pin, w.Stream, diag())
+				}
+				break
 			}
 			if w.Stream != q.Stream {
 				return ev.Failf("reply-on-wrong-stream", "association %d: request %d arrived on stream %d, its answer (built and written the way no. %d) was written to stream %d%s", ai, i, q.Stream, q.Via, w.Stream, diag())
@@ -722,7 +781,10 @@ func genReplies(t *rapid.T) ReplyCase {
 			if c.SM && rapid.Bool().Draw(t, "dwr") {
 				q.DWR = true
 			} else {
-				q.Via = rapid.SampledFrom([]int{0, 0, 1, 2, 2, 3, 4}).Draw(t, "via")
+				q.Via = rapid.SampledFrom([]int{0, 0, 1, 2, 2, 3, 4, 5, 5, 6, 7}).Draw(t, "via")
+				if q.Via >= 6 {
+					q.Pin = rapid.SampledFrom(append([]uint16{6, 8, 11}, pool...)).Draw(t, "pin")
+				}
 				concurrent = concurrent || q.Via == 2
 			}
 			if rapid.IntRange(0, 3).Draw(t, "split") == 0 {
@@ -756,10 +818,11 @@ var repliesProp = ev.Register(&ev.Prop[ReplyCase]{
 	ID: "C19", Name: "replies",
 	Rule: "replies while the application does other things with the association: 1 or 2 associations (one after the other or in parallel; 1 in 4 behind an application's wrapper type) served by one handler - a ServeMux handler, or a state machine (sm.New, with or without Origin-State-Id) " +
 		"that gets a CER first (stream 0, 1, 3 or one of the request streams) and answers it and the DWRs itself; per association 1..12 requests (thorough: ..40) on 2..5 streams (ids 0..20, 100, 65535), whole or in two chunks (alternating with the next request's when both are cut), " +
-		"fed once the reader is parked (and the CER answered); application requests are answered with Answer(2001) + label via WriteTo(conn), via WriteTo(conn.Connection()), from a goroutine of their own, with Answer(0) + AVPs, or serialised and written with conn.Write in the handler; state machine cases mix DWRs in. " +
+		"fed once the reader is parked (and the CER answered); application requests are answered with Answer(2001) + label via WriteTo(conn), via WriteTo(conn.Connection()), from a goroutine of their own, with Answer(0) + AVPs, or serialised and written with conn.Write in the handler - plainly, after ResetWriterStream() on the Conn, or after SetWriterStream(p) on it (p a request stream or 6, 8, 11; the previous value is set again after the write) - " +
+		"or via WriteTo(conn) after ResetWriterStream() and SetWriterStream(p); state machine cases mix DWRs in. " +
 		"Meanwhile 0..3 goroutines of the application send labelled requests of their own with WriteToStream(conn or conn.Connection(), s), s a request stream or another one, from before the requests are fed until all of them are answered (at most 60 each; thorough: 400). " +
 		"In 3 of 4 cases with concurrent writers the in-memory backend reads the ancillary data of a write (which the caller owns until the call returns) when another write has been entered, 2 ms later at most. " +
-		"Demanded: every answer the backend records - the handler's, the state machine's CEA and DWAs - is on the stream its request arrived on, with the Diameter PPID, one per request; the handler is given every request once, with MessageStream() = its stream; " +
+		"Demanded: every answer the backend records - the handler's, the state machine's CEA and DWAs - is on the stream its request arrived on (the one written with conn.Write while writer stream p was set: on p, and CurrentWriterStream() reports p then), with the Diameter PPID, one per request; the handler is given every request once, with MessageStream() = its stream; " +
 		"every message written with WriteToStream(c, s) is recorded whole on stream s, as many as calls succeeded; no write fails while the association is open; the loop closes the transport after EOF. " +
 		"non-trivial = concurrent writers (a WriteToStream goroutine or replies from goroutines of their own) on an association with requests, or a DWR on another stream than the first DWR the state machine saw",
 	Gen: genReplies, Run: runReplies, Classify: classifyReplies, Attempts: 5,
